@@ -97,7 +97,7 @@ func c10ScopeOf(p *Program) *c10Scope {
 		}
 	}
 	for f := range contains {
-		if errResultIndex(f.Signature) >= 0 {
+		if c10ErrResultIndex(f.Signature) >= 0 {
 			s.api[f] = true
 		}
 	}
@@ -105,7 +105,7 @@ func c10ScopeOf(p *Program) *c10Scope {
 	return s
 }
 
-func errResultIndex(sig *types.Signature) int {
+func c10ErrResultIndex(sig *types.Signature) int {
 	res := sig.Results()
 	for i := res.Len() - 1; i >= 0; i-- {
 		if res.At(i).Type().String() == "error" {
@@ -127,7 +127,7 @@ func isAPICall(cc *ssa.CallCommon) string {
 	} else if f := staticCallee(cc); f != nil && f.Signature.Recv() != nil {
 		sig = f.Signature
 	}
-	if sig == nil || errResultIndex(sig) < 0 || sig.Params().Len() < 2 || sig.Params().At(0).Type().String() != "context.Context" {
+	if sig == nil || c10ErrResultIndex(sig) < 0 || sig.Params().Len() < 2 || sig.Params().At(0).Type().String() != "context.Context" {
 		return ""
 	}
 	hasObj := false
@@ -219,7 +219,7 @@ func (p *Program) errorUse(cl Call) string {
 		return "dropped" // go / defer: results are discarded
 	}
 	sig := cl.Common.Signature()
-	idx := errResultIndex(sig)
+	idx := c10ErrResultIndex(sig)
 	if idx < 0 {
 		return "noerr"
 	}
@@ -291,12 +291,12 @@ func (p *Program) errorUse(cl Call) string {
 				default:
 					// wrapped (fmt.Errorf, IgnoreNotFound, errors.Join …): follow the result; anything else that
 					// takes the error (condition setters, err.Error() for a status message, channels) handles it
-					if cv := x.Value(); cv != nil && errResultIndex(cc.Signature()) >= 0 {
+					if cv := x.Value(); cv != nil && c10ErrResultIndex(cc.Signature()) >= 0 {
 						if cc.Signature().Results().Len() == 1 {
 							walk(cv, d+1)
 						} else {
 							for _, rr := range referrersOf(cv) {
-								if ex, ok := rr.(*ssa.Extract); ok && ex.Index == errResultIndex(cc.Signature()) {
+								if ex, ok := rr.(*ssa.Extract); ok && ex.Index == c10ErrResultIndex(cc.Signature()) {
 									walk(ex, d+1)
 								}
 							}
@@ -493,7 +493,7 @@ func c10r1(c *Ctx) {
 				direct++
 			} else if t := staticCallee(cl.Common); t != nil && s.api[t] {
 				kind = "via " + shortFuncID(t)
-			} else if impl := s.g.implementations(cl.Common); len(impl) > 0 && errResultIndex(cl.Common.Signature()) >= 0 {
+			} else if impl := s.g.implementations(cl.Common); len(impl) > 0 && c10ErrResultIndex(cl.Common.Signature()) >= 0 {
 				for _, t := range impl {
 					if s.api[t] {
 						kind = "via " + shortFuncID(t)
